@@ -15,7 +15,8 @@ def explore(ctx):
                 'from every new key ALL calls of the alphabet {NTT, INTT, extendPol} x sizes 2^k<=D x ncols{1,3} x nphase{1,2,3} x nblock{1,2} are applied; per transition the output must equal '
                 'a fresh object\'s output for the same arguments and the closed-form oracle; replaying a history must reproduce its key. non-trivial = transition taken from a non-initial state')
     ctx.bounds = {'objects': '(D=8,nThreads=1),(D=8,nThreads=3)' + (',(D=16,2),(D=4,5)' if ctx.tier == 'thorough' else ''), 'depth_cap': 4 if ctx.tier == 'thorough' else 3,
-                  'search ends': 'when a BFS level adds no new canonical state (reported in notes) or at the depth cap'}
+                  'search ends': 'when a BFS level adds no new canonical state (reported in notes) or at the depth cap',
+                  'deep part': 'all histories up to depth %d over 6 large calls (2^12..2^14) on an object of domain 2^13, without state merging' % (5 if ctx.tier == 'thorough' else 4)}
     ctx.assumptions = ['canonicalisation: later results depend only on the call arguments, constructor tables, (r, r_) and the default team size -- all in the key; fields that are hashed are compared by content']
     r = ctx.run_step('c19_bfs', ctx.bins['c19_bfs'])
     if ctx.stats.get('framework_replay_divergence', 0):
@@ -24,4 +25,4 @@ def explore(ctx):
         ctx.exhaustive = False
         ctx.incomplete.append('BFS depth cap reached with unexpanded states')
     ctx.stats['traces_validated_against_impl'] = ctx.stats.get('transitions', 0)
-    ctx.infos = [i for i in ctx.infos if i.startswith('bfs')]
+    ctx.infos = [i for i in ctx.infos if i.startswith('bfs') or i.startswith('deep')]
